@@ -157,7 +157,7 @@ def run_case_files(outdir, meta):
         for idx in parse_nat_list(evs[0][0]):
             mism.append(dict(f["cases"][idx], file=f["file"], index=idx, kind=f["kind"]))
         if f.get("has_nontrivial") and len(evs) > 1:
-            nontriv += int(evs[1][0])
+            nontriv += int(evs[1][0].split('%')[0])
         elif not f.get("has_nontrivial"):
             nontriv += len(f["cases"])
     return mism, nontriv, errors
